@@ -47,6 +47,8 @@ type c14Input struct {
 	Callers  []DBCaller  `json:"callers"`
 	Setup    []DBStep    `json:"setup"`   // sequential prefix (part of the history)
 	Threads  [][]c14Call `json:"threads"` // the concurrent clients
+	Per      int         `json:"per,omitempty"` // calls per client between two quiescent points (0 = all at once)
+	Big      int         `json:"big,omitempty"` // bytes of an untouched filler secret: slow saves put the mutex into FIFO hand-off
 	Repeat   int         `json:"repeat,omitempty"`
 	Recorded *c14Obs     `json:"recorded,omitempty"` // a history recorded earlier: re-decided verbatim on replay
 }
@@ -61,11 +63,24 @@ type c14CallObs struct {
 }
 
 type c14Obs struct {
+	Segment  int          `json:"segment"`
+	InitDisk []secDump    `json:"init_disk"` // the dump at the quiescent point before the segment
+	InitGen  uint64       `json:"init_gen"`
 	Calls []c14CallObs `json:"calls"`
 	Live  []secDump    `json:"live"`
 	Disk  []secDump    `json:"disk"`
 	Gen   uint64       `json:"gen"`
 	Note  string       `json:"note,omitempty"`
+}
+
+// the filler value is not one of the value tokens: both sides call it corruptToken
+var c14BigValue []byte
+
+func c14Value(st DBStep) []byte {
+	if st.Val == corruptToken {
+		return c14BigValue
+	}
+	return valueBytes(st.Val)
 }
 
 func c14Pause(k int) {
@@ -135,7 +150,7 @@ func (t *c14DB) call(ci int, st DBStep) (resObs, int) {
 		}
 	case "put":
 		var v api.SecretVersion
-		v, err = d.Put(c, name, valueBytes(st.Val))
+		v, err = d.Put(c, name, c14Value(st))
 		if err == nil {
 			o = resObs{Class: "ver", Ver: uint64(v)}
 		}
@@ -229,7 +244,7 @@ func c14HTTPResult(endpoint string, rec *httptest.ResponseRecorder) (resObs, int
 }
 
 // runC14Program executes one program once and returns the recorded history.
-func runC14Program(work string, idx int, in c14Input) (*c14Obs, error) {
+func runC14Program(work string, idx int, in c14Input) ([]c14Obs, error) {
 	dir := filepath.Join(work, fmt.Sprintf("c14_%d", idx%8))
 	env, err := newDBEnv(dir)
 	if err != nil {
@@ -247,10 +262,10 @@ func runC14Program(work string, idx int, in c14Input) (*c14Obs, error) {
 		}
 	}
 	var ctr atomic.Uint64
-	obs := &c14Obs{}
+	obs := &c14Obs{InitGen: env.d.WriteGen()}
 	one := func(thread int, st DBStep) c14CallObs {
 		co := c14CallObs{Thread: thread, Op: st}
-		if ht != nil {
+		if ht != nil && st.Val != corruptToken {
 			req, ep := ht.prepare(st.Caller, st)
 			rec := httptest.NewRecorder()
 			co.Inv = ctr.Add(1)
@@ -265,50 +280,82 @@ func runC14Program(work string, idx int, in c14Input) (*c14Obs, error) {
 		}
 		return co
 	}
+	if in.Big > 0 {
+		if len(c14BigValue) != in.Big {
+			c14BigValue = bytes.Repeat([]byte("filler-"), in.Big/7+1)[:in.Big]
+		}
+		obs.Calls = append(obs.Calls, one(-1, DBStep{Kind: "put", Name: []byte("zz"), Val: corruptToken}))
+	}
 	for _, st := range in.Setup {
 		obs.Calls = append(obs.Calls, one(-1, st))
+	}
+	// the dump at a quiescent point (no call in flight)
+	quiesce := func(o *c14Obs) {
+		live, err := dumpVia(env.d, env.super)
+		if err != nil {
+			o.Note += "dump failed: " + err.Error() + "; "
+			live = []secDump{{Name: []byte("<<dump failed>>")}}
+		}
+		o.Live = live
+		o.Gen = env.d.WriteGen()
+		disk, err := decodeFile(env.path, env.kek.inner)
+		if err != nil {
+			o.Note += "file decode failed: " + err.Error() + "; "
+			disk = []secDump{{Name: []byte("<<file undecodable>>")}}
+		}
+		o.Disk = disk
+	}
+	maxLen := 0
+	for _, th := range in.Threads {
+		if len(th) > maxLen {
+			maxLen = len(th)
+		}
+	}
+	per := in.Per
+	if per <= 0 || per > maxLen {
+		per = maxLen
 	}
 	procs := in.Procs
 	if procs <= 0 {
 		procs = 4
 	}
 	old := runtime.GOMAXPROCS(procs)
-	per := make([][]c14CallObs, len(in.Threads))
-	var wg sync.WaitGroup
-	start := make(chan struct{})
-	for ti, th := range in.Threads {
-		wg.Add(1)
-		go func(ti int, th []c14Call) {
-			defer wg.Done()
-			<-start
-			for _, c := range th {
-				c14Pause(c.Pre)
-				per[ti] = append(per[ti], one(ti, c.DBStep))
+	defer runtime.GOMAXPROCS(old)
+	var all []c14Obs
+	for seg, from := 0, 0; from < maxLen || seg == 0; seg, from = seg+1, from+per {
+		perThread := make([][]c14CallObs, len(in.Threads))
+		var wg sync.WaitGroup
+		start := make(chan struct{})
+		for ti, th := range in.Threads {
+			lo, hi := from, from+per
+			if lo > len(th) {
+				lo = len(th)
 			}
-		}(ti, th)
+			if hi > len(th) {
+				hi = len(th)
+			}
+			wg.Add(1)
+			go func(ti int, th []c14Call) {
+				defer wg.Done()
+				<-start
+				for _, c := range th {
+					c14Pause(c.Pre)
+					perThread[ti] = append(perThread[ti], one(ti, c.DBStep))
+				}
+			}(ti, th[lo:hi])
+		}
+		close(start)
+		wg.Wait()
+		for _, p := range perThread {
+			obs.Calls = append(obs.Calls, p...)
+		}
+		sort.SliceStable(obs.Calls, func(i, j int) bool { return obs.Calls[i].Inv < obs.Calls[j].Inv })
+		obs.Segment = seg
+		quiesce(obs)
+		all = append(all, *obs)
+		obs = &c14Obs{InitDisk: obs.Disk, InitGen: obs.Gen}
 	}
-	close(start)
-	wg.Wait()
-	runtime.GOMAXPROCS(old)
-	for _, p := range per {
-		obs.Calls = append(obs.Calls, p...)
-	}
-	sort.SliceStable(obs.Calls, func(i, j int) bool { return obs.Calls[i].Inv < obs.Calls[j].Inv })
-	// the final sequential dump
-	live, err := dumpVia(env.d, env.super)
-	if err != nil {
-		obs.Note += "final dump failed: " + err.Error() + "; "
-		live = []secDump{{Name: []byte("<<dump failed>>")}}
-	}
-	obs.Live = live
-	obs.Gen = env.d.WriteGen()
-	disk, err := decodeFile(env.path, env.kek.inner)
-	if err != nil {
-		obs.Note += "file decode failed: " + err.Error() + "; "
-		disk = []secDump{{Name: []byte("<<file undecodable>>")}}
-	}
-	obs.Disk = disk
-	return obs, nil
+	return all, nil
 }
 
 // ---- Gallina ----
@@ -322,7 +369,7 @@ func coqC14(in c14Input, obs *c14Obs) string {
 	for i, c := range obs.Calls {
 		calls[i] = fmt.Sprintf("LC %d %d %d (%s) %s", c.Inv, c.Rsp, c.Op.Caller, coqOp(c.Op), coqRes(c.Res))
 	}
-	return fmt.Sprintf("LCase %s %s %s %s %d", coqList(cs), coqList(calls), coqLive(obs.Live), coqDisk(obs.Disk), obs.Gen)
+	return fmt.Sprintf("LCase %s %s %d %s %s %s %d", coqList(cs), coqDisk(obs.InitDisk), obs.InitGen, coqList(calls), coqLive(obs.Live), coqDisk(obs.Disk), obs.Gen)
 }
 
 func c14Overlap(obs *c14Obs) (overlaps int, mutOverlap bool) {
@@ -344,7 +391,7 @@ func c14Overlap(obs *c14Obs) (overlaps int, mutOverlap bool) {
 
 func c14Record(in c14Input, obs *c14Obs, kind string) Record {
 	n, mut := c14Overlap(obs)
-	tags := map[string]bool{"mode:" + in.Mode: true, "shape:" + in.Shape: true, fmt.Sprintf("threads:%d", len(in.Threads)): true,
+	tags := map[string]bool{"mode:" + in.Mode: true, fmt.Sprintf("slow-saves:%v", in.Big > 0): true, "shape:" + in.Shape: true, fmt.Sprintf("threads:%d", len(in.Threads)): true,
 		fmt.Sprintf("procs:%d", in.Procs): true}
 	switch {
 	case n == 0:
@@ -360,7 +407,7 @@ func c14Record(in c14Input, obs *c14Obs, kind string) Record {
 	}
 	tags[fmt.Sprintf("calls:%d", (len(obs.Calls)/4)*4)] = true
 	var key strings.Builder
-	fmt.Fprintf(&key, "%s|", in.Mode)
+	fmt.Fprintf(&key, "%s|%s|%d|", in.Mode, coqDisk(obs.InitDisk), obs.InitGen)
 	for _, c := range obs.Calls {
 		fmt.Fprintf(&key, "%d,%d,%d,%s,%s,%d,%d>%s;", c.Inv, c.Rsp, c.Op.Caller, c.Op.Kind, c.Op.Name, c.Op.Ver, c.Op.Val, coqRes(c.Res))
 	}
@@ -423,11 +470,41 @@ func genC14(seed uint64, i int) c14Input {
 		return c14Call{DBStep: DBStep{Caller: caller(), Kind: kind, Name: name(), Ver: uint32(1 + r.IntN(3)), Val: 1 + r.IntN(4)}, Pre: pre()}
 	}
 	weights := map[string]int{"put": 30, "activate": 14, "delver": 9, "del": 6, "get": 14, "getver": 8, "getcond": 4, "info": 8, "list": 7}
-	shapes := []string{"random", "random", "random", "puts", "activate-get", "delete-put", "delver-info"}
+	shapes := []string{"random", "random", "random", "puts", "activate-get", "delete-put", "delver-info", "delver-activate", "list-two-names"}
 	in.Shape = shapes[r.IntN(len(shapes))]
+	if r.IntN(16) == 0 {
+		in.Big = 60000 + 40000*r.IntN(3)
+	}
+	if in.Shape == "activate-get" {
+		in.Setup = []DBStep{{Kind: "put", Name: names[0], Val: 1}, {Kind: "put", Name: names[0], Val: 2}}
+		pre = func() int { return 0 }
+		if nth < 3 {
+			nth, per = 3, 3
+		}
+	}
+	if in.Shape == "list-two-names" || in.Shape == "delver-activate" {
+		// contention shapes: a fixed prefix, no pauses
+		in.Setup = []DBStep{{Kind: "put", Name: names[0], Val: 1}, {Kind: "put", Name: names[1], Val: 1}, {Kind: "put", Name: names[0], Val: 2}}
+		pre = func() int { return 0 }
+		if nth < 3 {
+			nth, per = 3, 3
+		}
+	}
+	// segments: the clients meet at a quiescent point (where the state is dumped) after every
+	// `per` calls, so a long run is decided as a sequence of small histories
+	segs := 1 + r.IntN(2)
+	if in.Shape == "activate-get" || in.Shape == "list-two-names" || in.Shape == "delver-activate" {
+		segs = 4
+	}
+	if os.Getenv("VERIF_TIER_INTERNAL") == "thorough" {
+		segs *= 2
+	}
+	in.Per = per
 	for t := 0; t < nth; t++ {
 		var th []c14Call
-		for k := 0; k < per; k++ {
+		for k := 0; k < per*segs; k++ {
+			e := k / per
+			_ = e
 			var c c14Call
 			switch in.Shape {
 			case "puts": // version allocation: everybody puts (different and equal values)
@@ -436,9 +513,9 @@ func genC14(seed uint64, i int) c14Input {
 					c = mk([]string{"info", "get", "list"}[r.IntN(3)])
 				}
 			case "activate-get": // a reader must see a version number with its own bytes
-				if t == 0 || (t == 1 && r.IntN(2) == 0) {
+				if t == 0 || (t == 1 && nth > 3) {
 					c = mk("activate")
-					c.Ver = uint32(1 + (k+t)%2)
+					c.Name, c.Ver, c.Caller = names[0], uint32(1+(k+t)%2), 0
 				} else {
 					c = mk([]string{"get", "get", "info", "list", "getver", "getcond"}[r.IntN(6)])
 				}
@@ -447,6 +524,32 @@ func genC14(seed uint64, i int) c14Input {
 					c = mk([]string{"del", "put"}[k%2])
 				} else {
 					c = mk([]string{"put", "get", "info", "list", "put"}[r.IntN(5)])
+				}
+			case "delver-activate": // the active version can never be deleted
+				switch t {
+				case 0:
+					c = mk("delver")
+					c.Name, c.Ver, c.Caller = names[0], uint32(2+e), 0
+				case 1:
+					c = mk("activate")
+					c.Name, c.Ver, c.Caller = names[0], uint32(2+e), 0
+					if k%2 == 1 {
+						c.Ver = 1
+					}
+				case 2:
+					c = mk("put") // keeps new versions coming
+					c.Name, c.Val, c.Caller = names[0], 1+k%4, 0
+				default:
+					c = mk([]string{"get", "info", "getver"}[r.IntN(3)])
+					c.Name = names[0]
+				}
+			case "list-two-names": // one client changes a then b; a list showing the change of b shows the one of a
+				if t == 0 {
+					c = mk("put")
+					c.Name, c.Val, c.Caller = names[k%2], 1+(k/2)%4, 0
+				} else {
+					c = mk("list")
+					c.Caller = 0
 				}
 			case "delver-info":
 				if t == 0 {
@@ -502,7 +605,7 @@ func runC14Child(o Opts) {
 				part.Err = err.Error()
 				break
 			}
-			part.Obs = append(part.Obs, *obs)
+			part.Obs = append(part.Obs, obs...)
 		}
 		close(done)
 		bs, _ := json.Marshal(part)
@@ -534,7 +637,7 @@ func runC14(o Opts) {
 			}
 		}
 		corpusN = len(inputs)
-		n := 420
+		n := 640
 		if o.Tier == "thorough" {
 			n = 12000
 		}
